@@ -348,6 +348,8 @@ class Interp:
             return Sym(f"{base.name}.{attr}")
         if isinstance(base, int) and not isinstance(base, bool) and attr in ("bit_length", "bit_count"):
             return _PyMethod(base, attr)
+        if isinstance(base, bytes) and attr in ("decode", "split", "strip", "startswith", "endswith", "splitlines"):
+            return _PyMethod(base, attr)
         if isinstance(base, dict) and attr in ("keys", "values", "items", "get"):
             return Sym(f"dictmethod:{attr}"), base  # handled in call
         if isinstance(base, list) and attr in ("append", "extend", "insert", "pop", "remove", "clear", "index", "count", "copy", "reverse"):
@@ -1291,7 +1293,7 @@ class Interp:
                 a = args[0]
                 if isinstance(a, _DictView):
                     a = a.materialise()
-                if isinstance(a, (list, tuple, dict, set, str, frozenset)):
+                if isinstance(a, (list, tuple, dict, set, str, frozenset, bytes)):
                     return len(a)
                 return self.external_call("len", args, kwargs, node)
             if name in ("list", "tuple", "set", "sorted", "reversed"):
